@@ -9,4 +9,7 @@ if ! RUSTFLAGS="--cfg servo_html5ever_verif" cargo build --release --offline -q 
   exit 2
 fi
 rm -f /tmp/hv-build-$$.log
-exec target/release/vcheck "$@"
+# C12 needs the instrumented global allocator, which only vcheck_alloc installs
+bin=vcheck
+case "$1" in c12|C12) bin=vcheck_alloc ;; esac
+exec target/release/$bin "$@"
